@@ -23,10 +23,26 @@ func ruleSingleWriteSite(c *Ctx) {
 	rid := "R04.a"
 	c.rule(rid, "A3 who-may-write: call sites located in production packages of the repository that write to a client connection (Write/WriteString/ReadFrom on net.Conn, io.Writer, *tls.Conn, *redis.Conn; io.Copy*/io.WriteString/fmt.Fprint* onto such a value; writes into local buffers excluded) — exactly one may exist and it must be in the response writer that the connection loop calls")
 	respWriters := map[*ssa.Function]bool{}
+	writersAll := c.P.connWriters()
 	for _, cl := range c.P.connLoops() {
 		for _, r := range cl.Resp {
 			if f := staticCallee(r.Common()); f != nil {
-				respWriters[f] = true
+				// the writer itself, or the writer(s) reached through a wrapping helper
+				var visit func(g *ssa.Function, d int)
+				seen := map[*ssa.Function]bool{}
+				visit = func(g *ssa.Function, d int) {
+					if g == nil || seen[g] || d > 4 || !inFramework(g) {
+						return
+					}
+					seen[g] = true
+					if writersAll[g] {
+						respWriters[g] = true
+					}
+					for _, cal := range calleesIn(g) {
+						visit(cal, d+1)
+					}
+				}
+				visit(f, 0)
 			}
 		}
 	}
